@@ -10,8 +10,8 @@
    `fits ls a t`: a has the shape of t and every leaf's state lies in its set; `changes a`: number of
    edges whose ends differ.  `cost n ls t s`: Sankoff minimum over states 0..n-1 with root state s. *)
 From Coq Require Import ZArith List Bool.
-From DV Require Import Model.PyPrims Model.Tree Model.C16Model
-     Proofs.C16Fitch Proofs.C16Link Proofs.C16Top Proofs.C16Examples.
+From DV Require Import Model.PyPrims Model.Tree Model.C16Model Model.C16Prims Gen.Fitch
+     Proofs.C16Fitch Proofs.C16Link Proofs.C16Top Proofs.C16Examples Proofs.C16Gen.
 Import ListNotations.
 Open Scope Z_scope.
 
@@ -198,3 +198,95 @@ Theorem polytomy_depends_on_child_order :
   map result_of (run_history (ex_star [0; 2; 1; 3]) [] [ex_c01]) = [(Ok 2, Some [2])].
 Proof. exact ex_polytomy_order. Qed.
 Print Assumptions polytomy_depends_on_child_order.
+
+(* =====================================================================================
+   Translator tie: Gen/Fitch.v is regenerated from src/dendropy/model/parsimony.py on every run
+   (py/dv/gen_fitch.py, primitives: Model/C16Prims.v).  The generated functions equal the
+   hand-written model on ALL inputs, so every theorem above is a theorem about the generated code.
+   `sbc_arg true` = a fresh empty list passed as score_by_character_list, `sbc_arg false` = None.
+   ===================================================================================== *)
+
+Theorem gen_store_sets_as_attr_is_model : forall (n : tree) (v : ssl) (st : store),
+  gen_store_sets_as_attr n v st = FRet (st_set st (t_id n) v) tt.
+Proof. exact gen_store_eq. Qed.
+Print Assumptions gen_store_sets_as_attr_is_model.
+
+Theorem gen_retrieve_state_sets_from_attr_is_model : forall (n : tree) (m : option matrix) (st : store),
+  gen_retrieve_state_sets_from_attr n m st =
+  match get_ss m st n with
+  | (st', Ok v) => FRet st' v
+  | (st', Err e) => FRaise st' e
+  | (st', OutOfFuel) => FFuel
+  end.
+Proof. exact gen_retrieve_eq. Qed.
+Print Assumptions gen_retrieve_state_sets_from_attr_is_model.
+
+(* fitch_down_pass: same store, same score, same per-character list on return; same store,
+   per-character list and exception on raise; the generated `while True` never runs out of fuel *)
+Theorem gen_fitch_down_pass_is_model :
+  forall (m : option matrix) (w : option (list Z)) (sbc_given : bool) (st : store) (t : tree),
+  gen_fitch_down_pass (postorder t) m w st (sbc_arg sbc_given) =
+  match fitch_down_pass m w sbc_given st t with
+  | Done p => FRet (p_store p, p_sbc p) (p_score p)
+  | Fail p e => FRaise (p_store p, p_sbc p) e
+  end.
+Proof. exact gen_fitch_down_pass_eq. Qed.
+Print Assumptions gen_fitch_down_pass_is_model.
+
+Theorem gen_fitch_up_pass_is_model : forall (m : option matrix) (st : store) (t : tree),
+  gen_fitch_up_pass (preorder_with_parent None t) m st =
+  match fitch_up_pass m st t with
+  | (st', None) => FRet st' tt
+  | (st', Some e) => FRaise st' e
+  end.
+Proof. exact gen_fitch_up_pass_eq. Qed.
+Print Assumptions gen_fitch_up_pass_is_model.
+
+Theorem gen_parsimony_score_is_model :
+  forall (ns_tree : Z) (root : tree) (ns_chars : Z) (al : alphabet) (cm : cmatrix) (gam : bool)
+         (w : option (list Z)) (sbc_given : bool) (st : store),
+  gen_parsimony_score (mkTreeObj ns_tree root) (mkCharsObj ns_chars al cm) gam w st (sbc_arg sbc_given) =
+  if Z.eqb ns_tree ns_chars
+  then match fitch_down_pass (Some (taxon_state_sets_map al gam cm)) w sbc_given st root with
+       | Done p => FRet (p_store p, p_sbc p) (p_score p)
+       | Fail p e => FRaise (p_store p, p_sbc p) e
+       end
+  else FRaise (st, sbc_arg sbc_given) ValueErr.
+Proof. exact gen_parsimony_score_eq. Qed.
+Print Assumptions gen_parsimony_score_is_model.
+
+(* a parsimony_score call of a history (what the correspondence run replays) IS the generated code *)
+Theorem run_call_is_generated_parsimony_score :
+  forall (t : tree) (st : store) (c : call) (same : bool) (ns_tree ns_chars : Z),
+  k_api c = ParsimonyScore same -> same = Z.eqb ns_tree ns_chars ->
+  run_call t st c =
+  match gen_parsimony_score (mkTreeObj ns_tree t) (mkCharsObj ns_chars (k_alpha c) (k_chars c))
+                            (k_gam c) (k_weights c) st (sbc_arg (k_sbc c)) with
+  | FRet (st', sb) sc => (st', mkObs (Ok sc) sb (dump st' t))
+  | FRaise (st', sb) e => (st', mkObs (Err e) sb (dump st' t))
+  | FFuel => ([], mkObs OutOfFuel None [])
+  end.
+Proof. exact run_call_generated. Qed.
+Print Assumptions run_call_is_generated_parsimony_score.
+
+(* the property, read off the generated code: weighted sum of per-character Fitch scores (each the
+   minimum number of changes by fitch_is_minimum), from any store of cached node attributes *)
+Theorem generated_fitch_down_pass_weighted_sum :
+  forall (m : matrix) (w : option (list Z)) (k : nat) (sbc_given : bool) (st : store) (t : tree),
+  binary t -> NoDup (ids t) -> covers m k t -> Forall (fun row => length (snd row) = k) m -> weights_ok w k ->
+  exists st',
+    gen_fitch_down_pass (postorder t) (Some m) w st (sbc_arg sbc_given) =
+    FRet (st', if sbc_given then Some (map (fun i => weight_at w i * fitch_score (column m i) t) (seq 0 k)) else None)
+         (zsum (map (fun i => weight_at w i * fitch_score (column m i) t) (seq 0 k))).
+Proof. exact gen_down_pass_weighted_sum. Qed.
+Print Assumptions generated_fitch_down_pass_weighted_sum.
+
+(* ... and purity: score / exception and per-character list of the generated parsimony_score do not
+   depend on the attributes earlier calls left on the nodes *)
+Theorem generated_parsimony_score_store_independent :
+  forall (ns_tree ns_chars : Z) (root : tree) (al : alphabet) (cm : cmatrix) (gam : bool)
+         (w : option (list Z)) (sbc_given : bool) (st1 st2 : store),
+  fres_result (gen_parsimony_score (mkTreeObj ns_tree root) (mkCharsObj ns_chars al cm) gam w st1 (sbc_arg sbc_given)) =
+  fres_result (gen_parsimony_score (mkTreeObj ns_tree root) (mkCharsObj ns_chars al cm) gam w st2 (sbc_arg sbc_given)).
+Proof. exact gen_parsimony_score_store_independent. Qed.
+Print Assumptions generated_parsimony_score_store_independent.
